@@ -469,12 +469,12 @@ Proof.
     destruct (p_ref pst x) as [o|] eqn:R; simpl in P; try discriminate.
     destruct (sim_var pst st x o HI HS R) as (Px & Ho & l & Fx & Hlk & Hr).
     unfold p_bind in P. rewrite Pl in P. unfold has in P. simpl in P. rewrite Px in P.
-    rewrite set_assoc_same in P by auto. inversion P; subst; clear P.
+    rewrite set_assoc_same in P by auto. injection P as <- <-.
     unfold f_exec, f_declared. rewrite Hloc. unfold has. simpl. rewrite Fx, Hlk, Z.eqb_refl. simpl.
     rewrite store_same by auto. exists st. split; auto.
     destruct pst as [ob gl lo]. simpl in *. now subst lo.
   - (* LAppend *)
-    destruct (p_ref pst x) as [o|] eqn:R; simpl in P; try discriminate. inversion P; subst; clear P.
+    destruct (p_ref pst x) as [o|] eqn:R; simpl in P; try discriminate. injection P as <- <-.
     destruct (sim_var pst st x o HI HS R) as (Px & Ho & l & Fx & Hlk & Hr).
     destruct (append_ok _ l _ v Hr) as (h' & l' & E & UO).
     unfold f_exec. rewrite Hlk, E. simpl. eexists. split; [reflexivity|]. eapply sim_store; eauto.
@@ -482,18 +482,18 @@ Proof.
     destruct (p_ref pst x) as [o|] eqn:R; simpl in P; try discriminate.
     destruct (sim_var pst st x o HI HS R) as (Px & Ho & l & Fx & Hlk & Hr).
     destruct (remove_ok _ l _ v Hr) as (h' & l' & E & UO).
-    destruct (remove_first v (p_obj pst o)) as [cs'|] eqn:RF; try discriminate. inversion P; subst; clear P.
+    destruct (remove_first v (p_obj pst o)) as [cs'|] eqn:RF; try discriminate. injection P as <- <-.
     unfold f_exec. rewrite Hlk, E. simpl. eexists. split; [reflexivity|]. eapply sim_store; eauto.
   - (* LGet *)
     destruct (p_ref pst x) as [o|] eqn:R; simpl in P; try discriminate.
     destruct (sim_var pst st x o HI HS R) as (Px & Ho & l & Fx & Hlk & Hr).
     unfold f_exec. rewrite Hlk, (get_spec _ l _ i Hr).
-    destruct (py_index (length (p_obj pst o)) i); try discriminate. inversion P; subst; clear P.
+    destruct (py_index (length (p_obj pst o)) i); try discriminate. injection P as <- <-.
     simpl. eauto.
   - (* LSet *)
     destruct (p_ref pst x) as [o|] eqn:R; simpl in P; try discriminate.
     destruct (sim_var pst st x o HI HS R) as (Px & Ho & l & Fx & Hlk & Hr).
-    destruct (py_index (length (p_obj pst o)) i) as [k|] eqn:PI; try discriminate. inversion P; subst; clear P.
+    destruct (py_index (length (p_obj pst o)) i) as [k|] eqn:PI; try discriminate. injection P as <- <-.
     destruct (set_ok _ l _ i v k Hr PI) as (h' & E & UO).
     unfold f_exec. rewrite Hlk, E. simpl. eexists. split; [reflexivity|].
     pose proof (sim_store pst st x o l h' l _ HI HS Px Fx UO) as S'.
@@ -503,7 +503,7 @@ Proof.
     destruct (p_ref pst x) as [o|] eqn:R; simpl in P; try discriminate.
     destruct (sim_var pst st x o HI HS R) as (Px & Ho & l & Fx & Hlk & Hr).
     unfold f_exec. rewrite Hlk, (get_spec _ l _ i Hr).
-    destruct (py_index (length (p_obj pst o)) i); try discriminate. inversion P; subst; clear P.
+    destruct (py_index (length (p_obj pst o)) i); try discriminate. injection P as <- <-.
     simpl. eauto.
 Qed.
 
@@ -536,4 +536,196 @@ Proof.
       rewrite app_nth1 by auto.
       destruct F as [(_ & -> & _)|(_ & -> & _)]; auto.
       eapply rep_frame; eauto. intros b Eb. apply nth_error_app_old. eapply rep_bound; eauto.
+Qed.
+
+Lemma exec_sim_full : forall in_loop st pst s pst' out,
+  Inv st -> Sim pst st -> use_ok (map fst (f_glob st)) s = true ->
+  p_exec in_loop pst s = POk (pst', out) ->
+  exists st', f_exec in_loop st s = Safe (st', out) /\ Inv st' /\ Sim pst' st' /\
+              map fst (f_glob st') = map fst (f_glob st).
+Proof.
+  intros in_loop st pst s pst' out HI HS U P.
+  destruct (exec_sim _ _ _ _ _ _ HI HS U P) as (st' & E & S).
+  pose proof (exec_inv in_loop st s HI U) as PO. rewrite E in PO. simpl in PO. destruct PO as [HI' N].
+  exists st'. auto.
+Qed.
+
+Lemma block_sim : forall in_loop ss st pst pst' out,
+  Inv st -> Sim pst st -> forallb (use_ok (map fst (f_glob st))) ss = true ->
+  p_block in_loop pst ss = POk (pst', out) ->
+  exists st', f_block in_loop st ss = Safe (st', out) /\ Inv st' /\ Sim pst' st' /\
+              map fst (f_glob st') = map fst (f_glob st).
+Proof.
+  induction ss as [|s r IH]; intros st pst pst' out HI HS U P.
+  - simpl in *. injection P as <- <-. exists st. auto.
+  - cbn [forallb] in U. apply andb_true_iff in U. destruct U as [U1 U2].
+    cbn [p_block] in P. cbn [f_block].
+    destruct (p_exec in_loop pst s) as [[pst1 o1]|e] eqn:E1; cbn [pbind] in P; try discriminate.
+    destruct (p_block in_loop pst1 r) as [[pst2 o2]|e] eqn:E2; cbn [pbind] in P; try discriminate.
+    injection P as <- <-.
+    destruct (exec_sim_full _ _ _ _ _ _ HI HS U1 E1) as (st1 & F1 & HI1 & HS1 & N1).
+    rewrite <- N1 in U2.
+    destruct (IH st1 pst1 pst2 o2 HI1 HS1 U2 E2) as (st2 & F2 & HI2 & HS2 & N2).
+    exists st2. rewrite F1. cbn [rbind]. rewrite F2. cbn [rbind]. split; [reflexivity|]. split; [exact HI2|]. split; [exact HS2|]. congruence.
+Qed.
+
+Lemma setup_sim : forall ss st pst pst' out decl',
+  Inv st -> Sim pst st -> setup_ok (map fst (f_glob st)) ss = Some decl' ->
+  p_block false pst ss = POk (pst', out) ->
+  exists st', f_block false st ss = Safe (st', out) /\ Inv st' /\ Sim pst' st' /\
+              map fst (f_glob st') = decl'.
+Proof.
+  induction ss as [|s r IH]; intros st pst pst' out decl' HI HS H P.
+  - simpl in *. injection P as <- <-. injection H as <-. exists st. auto.
+  - cbn [p_block] in P. cbn [f_block].
+    destruct (p_exec false pst s) as [[pst1 o1]|e] eqn:E1; cbn [pbind] in P; try discriminate.
+    destruct (p_block false pst1 r) as [[pst2 o2]|e] eqn:E2; cbn [pbind] in P; try discriminate.
+    injection P as <- <-.
+    assert (G : forall x h' l' cs,
+              (if existsb (Z.eqb x) (map fst (f_glob st)) then None
+               else setup_ok (map fst (f_glob st) ++ [x]) r) = Some decl' ->
+              fresh_ok (f_heap st) h' l' cs -> pst1 = p_new false pst x cs -> o1 = [] ->
+              exists st', (do b <- f_block false (f_declare false st h' x l') r;
+                           let '(st2, o2') := b in Safe (st2, [] ++ o2')) = Safe (st', o1 ++ o2) /\
+                          Inv st' /\ Sim pst2 st' /\ map fst (f_glob st') = decl').
+    { intros x h' l' cs H0 F -> ->.
+      destruct (existsb (Z.eqb x) (map fst (f_glob st))) eqn:Ex; try discriminate.
+      assert (HI1 : Inv (f_declare false st h' x l')) by (eapply decl_inv; eauto).
+      assert (HS1 : Sim (p_new false pst x cs) (f_declare false st h' x l')) by (eapply sim_decl; eauto).
+      rewrite <- declare_names with (h := h') (l := l') in H0.
+      destruct (IH _ _ _ _ _ HI1 HS1 H0 E2) as (st2 & F2 & HI2 & HS2 & N2).
+      exists st2. rewrite F2. cbn [rbind]. auto. }
+    destruct s; cbn [setup_ok] in H; try discriminate;
+      try (match type of H with (if ?b then _ else _) = _ => destruct b eqn:U; [|discriminate] end;
+           destruct (exec_sim_full _ _ _ _ _ _ HI HS U E1) as (st1 & F1 & HI1 & HS1 & N1);
+           rewrite <- N1 in H;
+           destruct (IH st1 pst1 pst2 o2 decl' HI1 HS1 H E2) as (st2 & F2 & HI2 & HS2 & N2);
+           exists st2; rewrite F1; cbn [rbind]; rewrite F2; cbn [rbind]; auto; fail).
+    + (* LDeclLit *)
+      cbn [p_exec] in E1. injection E1 as E1a E1b.
+      destruct (make_ok (f_heap st) items) as (h' & l' & E & F).
+      unfold f_exec. rewrite E. cbn [rbind]. eapply G; eauto.
+    + (* LDeclComp *)
+      cbn [p_exec] in E1. destruct (c_step c =? 0)%Z eqn:Ez; try discriminate. injection E1 as E1a E1b.
+      destruct (comp_ok (f_heap st) c) as (h' & l' & E & F).
+      unfold comp_vals in F. rewrite Ez in F.
+      unfold f_exec. rewrite E. cbn [rbind]. eapply G; eauto.
+Qed.
+
+Lemma pass_sim : forall body st pst pst' o,
+  Inv st -> Sim pst st -> forallb (use_ok (map fst (f_glob st))) body = true ->
+  py_pass body pst = POk (pst', o) ->
+  exists st', run_pass body st = Safe (st', o) /\ Inv st' /\ Sim pst' st' /\
+              map fst (f_glob st') = map fst (f_glob st).
+Proof.
+  intros body st pst pst' o HI HS U P. unfold py_pass in P.
+  destruct (p_block true pst body) as [[pst1 o1]|e] eqn:E; cbn [pbind] in P; try discriminate.
+  injection P as <- <-.
+  destruct (block_sim true body st pst pst1 o1 HI HS U E) as (st1 & F & HI1 & HS1 & N1).
+  unfold run_pass. rewrite F. cbn [rbind]. eexists. split; [reflexivity|].
+  destruct HI1 as (Hl & Hw & Hb & Hc). destruct HS1 as (Pl & Pn & Pnm & Pb & Hv).
+  split; [|split]; [unfold Inv; simpl; auto | unfold Sim; simpl; repeat split; auto | simpl; auto].
+  - destruct (Hv _ _ H); auto.
+  - destruct (Hv _ _ H) as (_ & l & A & B). exists l. split; auto.
+Qed.
+
+Lemma passes_sim : forall body n st pst pst',
+  Inv st -> Sim pst st -> forallb (use_ok (map fst (f_glob st))) body = true ->
+  py_passes body pst n = POk pst' ->
+  exists st', run_passes body st n = Safe st' /\ Inv st' /\ Sim pst' st'.
+Proof.
+  induction n as [|n IH]; intros st pst pst' HI HS U P; simpl in *.
+  - injection P as <-. exists st. auto.
+  - destruct (py_pass body pst) as [[pst1 o1]|e] eqn:E; cbn [pbind] in P; try discriminate.
+    simpl in P.
+    destruct (pass_sim body st pst pst1 o1 HI HS U E) as (st1 & F & HI1 & HS1 & N1).
+    rewrite F. cbn [rbind]. simpl. rewrite <- N1 in U. eapply IH; eauto.
+Qed.
+
+Lemma Sim_init : Sim p_init f_init.
+Proof.
+  unfold Sim, p_init, f_init; simpl. repeat split; auto; try constructor; try (intros; contradiction); discriminate.
+Qed.
+
+(* Python free of exceptions => the firmware is safe and represents the same lists *)
+Lemma owner_unique_sim : forall setup body n pst,
+  single_owner setup body = true -> run_py setup body n = POk pst ->
+  exists st, run_fw setup body n = Safe st /\ Inv st /\ Sim pst st.
+Proof.
+  intros setup body n pst G P. unfold single_owner in G.
+  destruct (setup_ok [] setup) as [decl|] eqn:S; try discriminate.
+  unfold run_py, py_setup in P.
+  destruct (p_block false p_init setup) as [[pst0 o0]|e] eqn:E; cbn [pbind] in P; try discriminate.
+  simpl in P.
+  destruct (setup_sim setup f_init p_init pst0 o0 decl Inv_init Sim_init S E) as (st0 & F & HI0 & HS0 & N0).
+  unfold run_fw, run_setup. rewrite F. cbn [rbind]. simpl. rewrite <- N0 in G.
+  eapply passes_sim; eauto.
+Qed.
+
+(* ------------------------------------------------------------------ live data = live cells *)
+Lemma refs_map : forall e, refs e = map snd e.
+Proof. induction e as [|[x o] r IH]; simpl; auto; unfold refs in *; simpl in *; now rewrite IH. Qed.
+
+Lemma nodup_nat_id : forall l, NoDup l -> nodup_nat l = l.
+Proof.
+  induction l as [|a r IH]; intros H; simpl; auto. inversion H as [|? ? Hn Hr]; subst.
+  destruct (existsb (Nat.eqb a) r) eqn:E.
+  - apply existsb_exists in E. destruct E as (b & Hb & Eb). apply Nat.eqb_eq in Eb. subst b. contradiction.
+  - now rewrite IH.
+Qed.
+
+Lemma sum_pointwise : forall (A B : Type) (f : A -> nat) (g : B -> nat) (e1 : env A) (e2 : env B),
+  map fst e1 = map fst e2 -> NoDup (map fst e1) ->
+  (forall x a, assoc x e1 = Some a -> exists b, assoc x e2 = Some b /\ f a = g b) ->
+  fold_right (fun xa acc => f (snd xa) + acc) 0 e1 = fold_right (fun xb acc => g (snd xb) + acc) 0 e2.
+Proof.
+  induction e1 as [|[x a] r IH]; intros [|[y b] r2] N D H; simpl in *; try discriminate; auto.
+  injection N as -> N. inversion D as [|? ? Hn Hd]; subst.
+  f_equal.
+  - destruct (H y a) as (b' & Hb & E). { now rewrite Z.eqb_refl. }
+    rewrite Z.eqb_refl in Hb. now injection Hb as <-.
+  - apply IH; auto. intros z c Hz.
+    assert (Hzy : Z.eqb z y = false).
+    { destruct (Z.eqb z y) eqn:Ez; auto. apply Z.eqb_eq in Ez. subst z.
+      exfalso. apply Hn. apply assoc_In in Hz. apply (in_map fst) in Hz. exact Hz. }
+    specialize (H z c). rewrite Hzy in H. auto.
+Qed.
+
+Lemma fold_map_snd : forall (A : Type) (f : A -> nat) (e : env A),
+  fold_right (fun o acc => f o + acc) 0 (map snd e) = fold_right (fun xa acc => f (snd xa) + acc) 0 e.
+Proof. induction e as [|[x o] r IH]; simpl; auto. Qed.
+
+Lemma sim_live : forall pst st, Inv st -> Sim pst st -> p_live pst = f_live_cells st.
+Proof.
+  intros pst st (Hloc & (Hnames & _ & _) & _ & Hc) (Pl & Pn & Pnm & Pb & Hv).
+  unfold p_live, f_live_cells. rewrite Hc, Pl, app_nil_r.
+  rewrite refs_map in Pn. rewrite (nodup_nat_id _ Pn).
+  unfold sum_sizes.
+  rewrite <- (sum_pointwise nat lval (fun o => length (p_obj pst o)) size (p_glob pst) (f_glob st)).
+  - apply fold_map_snd.
+  - exact Pnm.
+  - now rewrite Pnm.
+  - intros x o Hx. destruct (Hv x o Hx) as (_ & l & Hl & Hr). exists l. split; auto.
+    symmetry. eapply rep_size; eauto.
+Qed.
+
+Lemma owner_unique_py : forall setup body n pst,
+  single_owner setup body = true -> run_py setup body n = POk pst ->
+  exists st, run_fw setup body n = Safe st /\ wf_heap st /\ tight st /\ f_live_cells st = p_live pst.
+Proof.
+  intros setup body n pst G P. destruct (owner_unique_sim setup body n pst G P) as (st & F & HI & HS).
+  exists st. destruct (Inv_wf_tight st HI) as [W T]. split; [exact F|]. split; [exact W|]. split; [exact T|].
+  symmetry. now apply sim_live.
+Qed.
+
+Lemma no_leak_py : forall setup body k p1 p2,
+  single_owner setup body = true ->
+  run_py setup body k = POk p1 -> run_py setup body (S k) = POk p2 -> p_live p1 = p_live p2 ->
+  exists s1 s2, run_fw setup body k = Safe s1 /\ run_fw setup body (S k) = Safe s2 /\
+                f_live_cells s1 = f_live_cells s2.
+Proof.
+  intros setup body k p1 p2 G P1 P2 L.
+  destruct (owner_unique_py _ _ _ _ G P1) as (s1 & F1 & _ & _ & C1).
+  destruct (owner_unique_py _ _ _ _ G P2) as (s2 & F2 & _ & _ & C2).
+  exists s1, s2. split; [exact F1|]. split; [exact F2|]. congruence.
 Qed.
